@@ -458,6 +458,23 @@ fn gen_signal<T: Smp>(sig: &str, chan: usize, start: u64, n: usize) -> Vec<T> {
                 })
                 .collect()
         }
+        "mix" => {
+            // sum of sines: mix:f1:ph1:a1:f2:ph2:a2:...
+            let comps: Vec<(f64, f64, f64)> = parts[1..]
+                .chunks(3)
+                .map(|c| (f64::from_hex(c[0]), f64::from_hex(c[1]), f64::from_hex(c[2])))
+                .collect();
+            (0..n)
+                .map(|i| {
+                    let x = (start + i as u64) as f64;
+                    let mut acc = 0.0;
+                    for (f, ph, a) in comps.iter() {
+                        acc += a * (2.0 * std::f64::consts::PI * f * x + ph).sin();
+                    }
+                    to_t::<T>(acc)
+                })
+                .collect()
+        }
         "sine" => {
             let f = f64::from_hex(parts[1]);
             let ph = f64::from_hex(parts[2]);
@@ -1059,6 +1076,14 @@ fn run<T: Smp>(lines: &[String], hist: std::fs::File, migrate: bool, tid: usize)
                     }
                 }));
                 SINK.with(|k| *k.borrow_mut() = saved);
+            }
+            "INFO" => {
+                // facts about the crate that are not part of a history (not recorded for the model)
+                if get(&m, "f") == "cutoff" {
+                    let n = geti(&m, "n");
+                    let w = window(get(&m, "window"));
+                    println!("CUTOFF {} {}", f64_hex(rubato::calculate_cutoff::<f64>(n, w)), rubato::calculate_cutoff::<f32>(n, w).hex());
+                }
             }
             "FN" => {
                 writeln!(cx.hist, "{}", line).unwrap();
